@@ -534,7 +534,8 @@ func (ctx *RenderContext) callLengthFunction(args []interface{}) (interface{}, e
 
 	switch v.Kind() {
 	case reflect.String:
-		return len(v.String()), nil
+		// The length of a string is its number of characters, not bytes
+		return len([]rune(v.String())), nil
 	case reflect.Slice, reflect.Array:
 		return v.Len(), nil
 	case reflect.Map:
